@@ -220,7 +220,12 @@ impl<W: 'static, R: 'static, T: 'static> XGenerator<W, R, T> {
             Self::Filter(gen, func) => either_h({
                 let inner: BIter<_, _, _> = Box::new(to_native!(gen, Self)._iter(ns, rt.clone()));
                 let f = to_primitive!(func, Function);
-                inner.filter_map(move |i| {
+                // every examined element takes a search permit: the predicate may be a native function,
+                // which the call limit does not count
+                inner.zip(rt.limits.search_iter()).filter_map(move |(i, s)| {
+                    if let Err(violation) = s {
+                        return Some(Err(violation));
+                    }
                     let Ok(value) = i else { return Some(i); };
                     let guard =
                         match ns.eval_func_with_values(f, vec![value.clone()], rt.clone(), false) {
@@ -268,11 +273,16 @@ impl<W: 'static, R: 'static, T: 'static> XGenerator<W, R, T> {
                 let inner: BIter<_, _, _> = Box::new(to_native!(gen, Self)._iter(ns, rt.clone()));
                 let f = to_primitive!(func, Function);
                 let mut found_first = false;
+                // the elements skipped while looking for the first match take search permits
+                let mut search = rt.limits.search_iter();
                 inner.filter_map(move |i| {
                     if found_first {
                         return Some(i);
                     }
                     let Ok(value) = i else { return Some(i); };
+                    if let Some(Err(violation)) = search.next() {
+                        return Some(Err(violation));
+                    }
                     let guard =
                         match ns.eval_func_with_values(f, vec![value.clone()], rt.clone(), false) {
                             Ok(g) => g.unwrap_value(),
